@@ -1137,8 +1137,9 @@ def run_num(E):
         n = rng.choice([0, 1, 2, 3, 4, 8])
         cf = [rng.choice([0, 1, q - 1, rng.randrange(q), rng.randrange(q)]) for _ in range(n + 1)]
         x = rng.choice([0, 1, q - 1, rng.randrange(q), rng.randrange(q)])
-        doc = sum(v * pow(x, j, q) for j, v in enumerate(cf)) % q            # header: n = degree, n + 1 coefficients
-        code = sum(v * pow(x, j, q) for j, v in enumerate(cf[:n])) % q       # every caller: n = number of coefficients
+        # n is the number of coefficients a[0..n-1] (the code and every in-tree caller, mpc_sss_gen); the header comment
+        # speaks of degree n with n + 1 coefficients - recorded as a documentation discrepancy, not judged
+        code = sum(v * pow(x, j, q) for j, v in enumerate(cf[:n])) % q
         key = "bn_evl|n%s" % ("0" if n == 0 else ">0")
         if not ctx.begin(key, [[hx(v) for v in cf], hx(x), hx(q), n], nontrivial=True):
             return
@@ -1153,16 +1154,13 @@ def run_num(E):
             if not ctx.check(not r.caught, key + "|unexpected-error", {"err": r.err}):
                 return
             got = R.bn_get(c)
-            if doc != code and got[0] == code:
-                # de-facto semantics (n coefficients) - what mpc_sss_gen relies on; differs from the header
-                ctx.fail(key + "|leading-coefficient-ignored", {"got": hx(got[0]), "documented": hx(doc), "n": n})
-                ctx.ok()
-            else:
-                ctx.check(got[0] in (doc, code), key + "|value", {"got": hx(got[0] or 0), "documented": hx(doc), "n-coefficients": hx(code)})
+            ctx.check(got[0] == code, key + "|value", {"got": hx(got[0] or 0), "exp": hx(code), "n": n})
             ctx.check(got[3], key + "|normal-form", repr(got))
         finally:
             R.free(pa)
 
+    ctx.note("bn_evl_header_discrepancy", "relic_bn.h documents n as the degree with n + 1 coefficients; the code and its callers use "
+             "n coefficients a[0..n-1]; the oracle follows the code")
     ops = ([gcd] * 6 + [gcd_dig] + [gcd_ext] * 8 + [gcd_ext_dig] * 2 + [gcd_ext_mid] * 3 + [lcm] * 2 + [smb_leg] * 2 + [smb_jac] * 5 +
            [srt] * 3 + [lag] * 2 + [evl] * 2)
     N = ctx.n(1500 if E.w8 else 3500, 70000)
